@@ -25,7 +25,7 @@ def match_known(known, pid, harness, role):
 
 def _clean(o):
     if isinstance(o, dict):
-        return {k: _clean(v) for k, v in o.items() if not k.startswith("_") and k != "claim"}
+        return {k: _clean(v) for k, v in o.items() if not k.startswith("_") and not (k == "claim" and not isinstance(v, (str, list, type(None))))}
     if isinstance(o, list):
         return [_clean(x) for x in o]
     if isinstance(o, (str, int, float, bool)) or o is None:
